@@ -293,6 +293,70 @@ theorem no_cascade (cfg : Cfg) (h : List Step) :
       List.sum_cons] at *
     omega
 
+theorem processOutcome_le_events (cfg : Cfg) (n : Node) (s : Subject) (now : Nat) (o : Outcome)
+    (hc : cfg.reportOnlyOnSuccess = true ∨ o ≠ .noAgent) :
+    (processOutcome cfg n s now o).length ≤ (eventsOf o).length := by
+  have ht : ∀ c x, (toList c x).length ≤ 1 := by
+    intro c x; unfold toList; cases c <;> cases x <;> simp
+  cases o with
+  | unknownBlock f =>
+    have h1 := ht (has f bfReport) (sendStatusReport n s posReceived rBlockUnsupported now)
+    have h2 := ht (has s.flags fReqDeletion) (sendStatusReport n s posDeleted rBlockUnsupported now)
+    simp only [processOutcome, bundleDeletion, eventsOf, List.length_append]
+    split <;> simp <;> omega
+  | noAgent =>
+    rcases hc with hc | hc
+    · simp [processOutcome, hc]
+    · exact absurd rfl hc
+  | received => exact ht _ _
+  | deliveredAgent => exact ht _ _
+  | forwarded => exact ht _ _
+  | lifetimeExpired => exact ht _ _
+  | hopExceeded => exact ht _ _
+  | foreignSource => exact ht _ _
+  | allFailed => simp [processOutcome]
+  | notDispatched => simp [processOutcome]
+
+theorem flatMap_length_le_flatMap {α β γ} (f : α → List β) (g : α → List γ) (l : List α)
+    (h : ∀ a ∈ l, (f a).length ≤ (g a).length) : (l.flatMap f).length ≤ (l.flatMap g).length := by
+  induction l with
+  | nil => simp
+  | cons a t ih =>
+    simp only [List.flatMap_cons, List.length_append]
+    have h1 := h a (by simp)
+    have h2 := ih (fun b hb => h b (by simp [hb]))
+    omega
+
+/-- One report per event at most: the number of reports of a history is bounded by the number of
+events that happened to non-administrative subjects (repaired `localDelivery`; for the current one
+as long as no flow ends in "no agent took it"). -/
+theorem no_cascade_events (cfg : Cfg) (h : List Step)
+    (hc : cfg.reportOnlyOnSuccess = true ∨ ∀ e ∈ h, Outcome.noAgent ∉ flowOutcomes e.subject e.flow) :
+    (runHistory cfg h).length ≤ nonAdminEventCount h := by
+  induction h with
+  | nil => simp [runHistory, nonAdminEventCount]
+  | cons e t ih =>
+    have hc' : cfg.reportOnlyOnSuccess = true ∨
+        ∀ e ∈ t, Outcome.noAgent ∉ flowOutcomes e.subject e.flow := by
+      rcases hc with hc | hc
+      · exact Or.inl hc
+      · exact Or.inr (fun x hx => hc x (by simp [hx]))
+    have ih' := ih hc'
+    have he : (e.reports cfg).length ≤
+        (if e.subject.admin then 0 else (flowEvents e.subject e.flow).length) := by
+      cases hadm : e.subject.admin
+      · simp only [Step.reports, flowReports, flowEvents, Bool.false_eq_true, if_false]
+        apply flatMap_length_le_flatMap
+        intro o ho
+        apply processOutcome_le_events
+        rcases hc with hc | hc
+        · exact Or.inl hc
+        · exact Or.inr (fun heq => hc e (by simp) (heq ▸ ho))
+      · simp [Step.reports, flow_no_report_about_admin cfg e.node e.subject e.now e.flow hadm]
+    simp only [runHistory, nonAdminEventCount, List.flatMap_cons, List.length_append, List.map_cons,
+      List.sum_cons] at *
+    omega
+
 /-- A report that re-enters any node, along any flow, produces nothing. -/
 theorem report_reentry_silent (cfg : Cfg) (h : List Step) (r : Report) (hr : r ∈ runHistory cfg h)
     (n : Node) (time seq : Nat) (blocks : List Nat) (receiver : Eid) (now : Nat) (fl : Flow) :
